@@ -106,7 +106,8 @@ PROPS = {
              "non-trivial = at least one voiced frame",
         theorem_clauses=["pulse fires iff counter+1 > period; height sqrt(period)", "every gap of a constant-F0 stretch is floor(T0) or ceil(T0), = T0 for integer T0", "ring buffer output = convolution of queued contributions: h*pulses + (delta-h)*noise",
                          "start fires at once, counter 1", "linear glide of the period across a frame", "period = rate/exp(clamp lf0), NODATA -> unvoiced",
-                         "LCG deviates in [0,1]", "pinned-commit defect (first gap T0-1 for integer T0) as a statement"],
+                         "LCG deviates in [0,1]", "pinned-commit defect (first gap T0-1 for integer T0) as a statement",
+                         "unit mean power: over n samples at a constant period the energy of the pulse train is n + c0 - cn, within one period of n; every sample is 0 or sqrt(T0)"],
         test_clauses=["noise mean ~ 0, variance ~ 1 (>= 5000 unvoiced samples)",
                       "pulse heights under glide, mean power over constant stretches"],
         assumptions=["the MLSA filter with zero coefficients is the identity (theorem mlsaDf_zero, C06)"],
@@ -116,7 +117,8 @@ PROPS = {
              "random cepstra rescaled so that |sum_{m>=1} c_m cos(m w~)| <= 2, rates 8k..96k, DFT on 33/65/129/257 frequencies. "
              "class = (order bucket, alpha bucket, rate); non-trivial = non-zero cepstrum beyond c0",
         theorem_clauses=["mc2b and b2mc are mutually inverse for every alpha", "zero coefficients: the MLSA cascade is the identity in every state",
-                         "c0 -> c0+delta shifts only b0 and multiplies the filter input by exp(delta)", "the MLSA cascade is homogeneous: scaling the excitation scales the response (so the response scales with exp(c0))", "with frozen coefficients the MLSA filter is linear and time-invariant: output = excitation convolved with the pulse response"],
+                         "c0 -> c0+delta shifts only b0 and multiplies the filter input by exp(delta)", "the MLSA cascade is homogeneous: scaling the excitation scales the response (so the response scales with exp(c0))", "with frozen coefficients the MLSA filter is linear and time-invariant: output = excitation convolved with the pulse response",
+                         "transfer function, every alpha: the filter is two cascaded stages, each exactly P(F)/P(-F) of its basic filter (P = the code's degree-5 Pade polynomial), and b0 + F1 + F2 = sum_m c_m z~^-m (the warped cepstrum polynomial)"],
         test_clauses=["|ln|H(e^jw)| - sum c_m cos(m w~)| <= 0.01 neper on every bin (Pade approximation error of a concrete rational function)",
                       "response decayed inside the frame"],
         assumptions=[],
@@ -126,7 +128,8 @@ PROPS = {
              "random increasing frequencies with spacing >= pi/(4(order+1)), rates 48k/96k, one frame of rate/20-1 samples; every 4th case with beta>0 "
              "(finite/decaying only). class = (order bucket, parity, stage, alpha, gain kind, beta); spectrum clause evaluated when the truncated tail is < -120 dB",
         theorem_clauses=["repaired lsp2lpc does not read the gain element; head coefficient 1", "gc2gc between equal gamma is truncation",
-                         "ignorm inverts gnorm (given the power law)", "MGLSA = cascade of `stage` sections", "gamma = -1/stage", "well-separated frequencies pass the stability check unchanged", "lsp2lpc = coefficients of (P+Q)/2 for every order", "with frozen coefficients the MGLSA cascade is linear and time-invariant: output = excitation convolved with the pulse response", "alpha = 0: the per-frame coefficient chain collapses to [K, a_1..a_m] with a = coefficients of (P+Q)/2, and the cascade computes the all-pole difference equation of 1/A(z)^stage"],
+                         "ignorm inverts gnorm (given the power law)", "MGLSA = cascade of `stage` sections", "gamma = -1/stage", "well-separated frequencies pass the stability check unchanged", "lsp2lpc = coefficients of (P+Q)/2 for every order", "with frozen coefficients the MGLSA cascade is linear and time-invariant: output = excitation convolved with the pulse response", "alpha = 0: the per-frame coefficient chain collapses to [K, a_1..a_m] with a = coefficients of (P+Q)/2, and the cascade computes the all-pole difference equation of 1/A(z)^stage",
+                         "every alpha: the filter is `stage` identical sections; one section inverts 1 + sum_k c_k Phi_k (warped basis); for the vocoder's LSP coefficients it is kappa/A(z~) with A = (P+Q)/2 in the warped delay, and c[0]*kappa^stage is the gain K (power laws as hypotheses)"],
         test_clauses=["|ln|H| - ln(K/|A(e^{jw~})|^s)| <= 0.001 neper within 100 dB of the peak, A from polynomial multiplication of the LSP factors",
                       "finite, decaying response"],
         assumptions=[],
@@ -236,7 +239,8 @@ PROPS = {
              "loaded by Engine::load under catch_unwind with the harness under a 6 GiB address-space limit and a wall-clock limit (BEGIN markers name the case on "
              "abort/hang), and parsed by the Lean reader. class = (fault kinds, loader outcome, drift flag); non-trivial = an actual fault was applied",
         theorem_clauses=["for every byte sequence the guarded reader returns a voice or an error (no panic outcome)", "the reader is total (structural/fuelled recursion)",
-                         "pinned-commit panic sites witnessed on the unguarded model (inverted range, truncated file, unknown question, lone node child, overlong number)"],
+                         "pinned-commit panic sites witnessed on the unguarded model (inverted range, truncated file, unknown question, lone node child, overlong number)",
+                         "size bounds: an accepted voice has no more streams, questions, trees, tree rows, PDF words, windows or window coefficients than the file has bytes"],
         test_clauses=["the real loader never panics / aborts / exceeds the time limit on any enumerated fault", "when both accept, the loaded metadata equals the file's",
                       "ok-vs-err disagreements between reader and loader are counted as drift (both satisfy C18)"],
         assumptions=["hang and unbounded allocation of the real binary are runtime observations under rlimit/timeout", "the header model is the line grammar of Appendix E, not serde's machinery"],
